@@ -1,4 +1,5 @@
 mod api;
+mod builder_run;
 mod conc;
 mod core_replay;
 mod edits;
@@ -281,12 +282,116 @@ fn minted_checks(args: &[String]) -> i32 {
     if m.violations.is_empty() { 0 } else { 1 }
 }
 
+/// pv run-builder --behaviours F --family c13|c14|c17 --tier T --seed N --out trace.ndjson
+/// Replays every behaviour on the protocols the tier selects; writes one NDJSON line per
+/// (behaviour, protocol, instance) with the observations.
+fn run_builder_cmd(args: &[String]) -> i32 {
+    use std::io::Write;
+    install_panic_hook();
+    let path = arg(args, "--behaviours").expect("--behaviours");
+    let tier = arg(args, "--tier").unwrap_or_else(|| "quick".into());
+    let seed: u64 = arg(args, "--seed").and_then(|s| s.parse().ok()).unwrap_or(1);
+    let out = arg(args, "--out").expect("--out");
+    let thorough = tier == "thorough";
+    let text = std::fs::read_to_string(&path).expect("behaviours");
+    let behs: Vec<builder_run::Beh> = text.lines().filter(|l| !l.trim().is_empty())
+        .map(|l| serde_json::from_str(l).expect("behaviour line")).collect();
+    let chunks: Vec<Vec<String>> = std::thread::scope(|sc| {
+        let mut hs = vec![];
+        for t in 0..THREADS {
+            let behs = &behs;
+            hs.push(sc.spawn(move || {
+                let mut r = conc::rng(seed, &format!("builder-{}", t));
+                let mut book = builder_run::NonceBook::default();
+                let mut lines = vec![];
+                for (i, beh) in behs.iter().enumerate().filter(|(i, _)| i % THREADS == t) {
+                    let nbuild = beh.ops.iter().filter(|o| o.op == "build").count();
+                    for pr in Proto::all() {
+                        // v4.local / v4.public carry every history; the other six protocols
+                        // (same builder code, different final call) the short ones
+                        let full = pr.v == 4 || thorough;
+                        let slow = pr.public && (pr.v == 1 || pr.v == 3);
+                        if !full && beh.ops.len() > if slow { 3 } else { 4 } {
+                            continue;
+                        }
+                        if slow && thorough && beh.ops.len() > 4 && i % 8 != 0 {
+                            continue;
+                        }
+                        let _ = nbuild;
+                        let inst = builder_run::make_binst(&mut r, i + pr.v as usize);
+                        let km = conc::random_keymat(&mut r, i);
+                        let ops = builder_run::run_behaviour(pr, beh, &inst, &km, &mut book);
+                        lines.push(json!({"id": format!("{}:{}", i, pr.name()), "layer": beh.layer, "pr": pr.name(), "ops": ops}).to_string());
+                    }
+                }
+                lines
+            }));
+        }
+        hs.into_iter().map(|h| h.join().expect("thread")).collect()
+    });
+    let mut chunks = chunks;
+    // random long histories (implementation -> specification direction)
+    let n_random: usize = arg(args, "--random").and_then(|s| s.parse().ok()).unwrap_or(0);
+    let maxlen: usize = arg(args, "--maxlen").and_then(|s| s.parse().ok()).unwrap_or(40);
+    let family = arg(args, "--family").unwrap_or_else(|| "c17".into());
+    if n_random > 0 {
+        let extra: Vec<Vec<String>> = std::thread::scope(|sc| {
+            let mut hs = vec![];
+            for t in 0..THREADS {
+                let family = family.clone();
+                hs.push(sc.spawn(move || {
+                    let mut r = conc::rng(seed, &format!("builder-random-{}", t));
+                    let mut book = builder_run::NonceBook::default();
+                    let mut lines = vec![];
+                    for i in (0..n_random).filter(|i| i % THREADS == t) {
+                        let beh = builder_run::random_behaviour(&mut r, &family, maxlen);
+                        let protos = Proto::all();
+                        let pr = if i % 3 == 0 { protos[i / 3 % 8] } else { Proto::new(4, if i % 2 == 0 { "local" } else { "public" }) };
+                        let inst = builder_run::make_binst(&mut r, i);
+                        let km = conc::random_keymat(&mut r, i);
+                        let ops = builder_run::run_behaviour(pr, &beh, &inst, &km, &mut book);
+                        lines.push(json!({"id": format!("r{}:{}", i, pr.name()), "layer": beh.layer, "pr": pr.name(), "ops": ops}).to_string());
+                    }
+                    lines
+                }));
+            }
+            hs.into_iter().map(|h| h.join().expect("thread")).collect()
+        });
+        chunks.extend(extra);
+    }
+    // C10: many builds under one key, with per-bit statistics of the nonces
+    let n_nonce: usize = arg(args, "--nonce").and_then(|s| s.parse().ok()).unwrap_or(0);
+    if n_nonce > 0 {
+        let extra: Vec<Vec<String>> = std::thread::scope(|sc| {
+            let mut hs = vec![];
+            for (t, pr) in Proto::all().into_iter().filter(|p| !p.public).enumerate() {
+                for layer in ["generic", "prelude"] {
+                    hs.push(sc.spawn(move || builder_run::nonce_drive(pr, layer, n_nonce, seed + t as u64)));
+                }
+            }
+            hs.into_iter().map(|h| h.join().expect("thread")).collect()
+        });
+        chunks.extend(extra);
+    }
+    let mut f = std::io::BufWriter::new(std::fs::File::create(&out).expect("out"));
+    let mut n = 0;
+    for c in chunks {
+        for l in c {
+            writeln!(f, "{}", l).unwrap();
+            n += 1;
+        }
+    }
+    println!("{}", n);
+    0
+}
+
 fn main() {
     let args: Vec<String> = std::env::args().collect();
     let code = match args.get(1).map(|s| s.as_str()) {
         Some("smoke") => smoke(),
         Some("replay-core") => replay_core(&args),
         Some("minted-checks") => minted_checks(&args),
+        Some("run-builder") => run_builder_cmd(&args),
         _ => {
             eprintln!("usage: pv <smoke|replay-core> ...");
             2
